@@ -32,6 +32,7 @@ UDFS = {
     "dbl": lambda x: 2 * x,
     "itonly": lambda x: x - 1,   # registered with supporting_engine_types=(iteration.Engine,)
     "only2": lambda x: x + 2,    # registered in engine "it2" only (no supporting_engine_types restriction)
+    "pdiv": lambda x: 6 // x,    # *partial*: raises ZeroDivisionError on 0; iteration engines only (like itonly)
 }
 
 
@@ -184,7 +185,7 @@ def build_expr(e, tags):
     if k == "neg":
         return ColumnFunction("__neg__", (build_expr(e[1], tags),), dtype=int, supporting_engine_types=None)
     if k == "udf":
-        sup = (iteration.Engine,) if e[1] == "itonly" else None
+        sup = (iteration.Engine,) if e[1] in ("itonly", "pdiv") else None
         return ColumnExpression.function(e[1], build_expr(e[2], tags), dtype=int, supporting_engine_types=sup)
     if k == "udfu":
         # same name and arguments as the restricted function (hence == and equal hash), but no engine restriction
